@@ -113,7 +113,13 @@ func (c04) Generate(r *engine.Rand, index int, tier string) *engine.Scenario {
 		case k == 5:
 			g.emitUnit(0xd9, false, false) // RETI with a prepared stack
 		case k == 6:
-			g.emit(0x00)
+			if r.Bool() {
+				g.emit(0x00)
+			} else {
+				// a CB-prefixed instruction on registers (two bytes, one instruction: the one-instruction
+				// delay of EI covers the whole of it)
+				g.emit(0xcb, r.Byte()&0xf8|uint8(engine.Pick(r, []int{0, 1, 2, 3, 4, 5, 7})))
+			}
 		case k == 7:
 			g.emit(engine.Pick(r, []uint8{0x04, 0x0c, 0x14, 0x1c, 0x24, 0x2c, 0x3c}))
 		case k == 8:
